@@ -24,7 +24,7 @@ ENV_FRAGS = ["${a}", "${n}", "${n:-d}", "${a:-d}", "${e}", "${e:-d}", "${n:d}", 
 ESC_FRAGS = ["\\n", "\\t", "\\r", "\\b", "\\f", "\\a", "\\e", "\\v", "\\\\", "\\\"", "\\'", "\\q", "\\$", "\\{", "\\ ", "\\\n", "\\0",
              "\\7", "\\07", "\\007", "\\0007", "\\101", "\\377", "\\400", "\\777", "\\8", "\\18", "\\1234", "\\x41", "\\x4", "\\x414",
              "\\xg", "\\x", "\\x00", "\\xff", "\\xFF", "\\X41", "\\N"]
-MISC_FRAGS = ["a", "b c", "\r\n", "\n\r", "\x0b", "\x0c", "\n", "\t", "#", "//", "/*", "*/", "/* c */", "# c\n", "// c\n", "\"", "'", "{", "}", "=", ",", "(", ")", "+=",
+MISC_FRAGS = ["/* a * b */", "/** doc */", "/*** box ***/", "/* *p */", "/* a\n * b\n */", "a", "b c", "\r\n", "\n\r", "\x0b", "\x0c", "\n", "\t", "#", "//", "/*", "*/", "/* c */", "# c\n", "// c\n", "\"", "'", "{", "}", "=", ",", "(", ")", "+=",
               "+", "*", "\r", "\xe9", "\x01", "\x7f", "\xff", ";", "|", ":-"]
 
 
